@@ -467,6 +467,72 @@ Section StoreTransparent.
   Qed.
 End StoreTransparent.
 
+(** the under cache and the anti cache by themselves: what their keys feed determines what the
+    inversions read of their arguments (nodes with spans, indices, signatures, bodies, names;
+    g_sig and the inverse flag; for_un) *)
+Theorem under_cache_sufficient : forall (x y : under_input),
+  under_key x = under_key y -> under_deps x = under_deps y.
+Proof.
+  intros [x ex] [y ey] E. unfold under_key, under_deps in *. cbn [fst snd] in *.
+  rewrite (map_ext _ _ no_origin_deep x), (map_ext _ _ no_origin_deep y). exact E.
+Qed.
+
+Theorem anti_cache_sufficient : forall (x y : anti_input),
+  anti_key x = anti_key y -> anti_deps x = anti_deps y.
+Proof.
+  intros [x fx] [y fy] E. unfold anti_key, anti_deps in *. cbn [fst snd] in *.
+  assert (E1 : fx = fy) by (apply (f_equal fst) in E; exact E).
+  assert (E2 : map deep x = map deep y) by (apply (f_equal snd) in E; exact E).
+  rewrite (map_ext _ _ no_origin_deep x), (map_ext _ _ no_origin_deep y), E1, E2. reflexivity.
+Qed.
+
+(** any table whose key determines [d], that stores a result only when its making did not read
+    the spans-table length, is transparent for every function of [d] and (where read) the length *)
+Section LenStore.
+  Context {X D K V : Type}.
+  Variable keqb : K -> K -> bool.
+  Hypothesis keqb_spec : forall a b, keqb a b = true <-> a = b.
+  Variable k : X -> K.
+  Variable d : X -> D.
+  Hypothesis k_determines_d : forall x y, k x = k y -> d x = d y.
+
+  Theorem len_store_transparent : forall (u : D -> bool) (g : D -> option N -> V) usable (history : list (X * N)),
+    run_memo_store keqb usable (len_store d u) (fun x => k (fst x)) (len_f d u g) history
+    = map (len_f d u g) history.
+  Proof.
+    intros u g usable h. apply (memo_store_transparent_on keqb keqb_spec).
+    intros [x lx] [y ly] Hx Hy St E. cbn [fst] in E. pose proof (k_determines_d x y E) as Dq.
+    unfold len_store, len_f in *. cbn [fst snd] in *. rewrite <- Dq.
+    destruct (u (d x)); [discriminate St | reflexivity].
+  Qed.
+End LenStore.
+
+Theorem under_cache_store_transparent :
+  forall (K V : Type) (keqb : K -> K -> bool), (forall a b, keqb a b = true <-> a = b) ->
+  forall (kinj : list node * (N * bool) -> K), (forall a b, kinj a = kinj b -> a = b) ->
+  forall (u : list node * (N * bool) -> bool) (g : list node * (N * bool) -> option N -> V) usable
+         (history : list (under_input * N)),
+    run_memo_store keqb usable (len_store under_deps u) (fun x => kinj (under_key (fst x))) (len_f under_deps u g) history
+    = map (len_f under_deps u g) history.
+Proof.
+  intros K V keqb Hk kinj Hinj.
+  exact (len_store_transparent keqb Hk (fun x => kinj (under_key x)) under_deps
+           (fun x y E => under_cache_sufficient x y (Hinj _ _ E))).
+Qed.
+
+Theorem anti_cache_store_transparent :
+  forall (K V : Type) (keqb : K -> K -> bool), (forall a b, keqb a b = true <-> a = b) ->
+  forall (kinj : bool * list node -> K), (forall a b, kinj a = kinj b -> a = b) ->
+  forall (u : list node * bool -> bool) (g : list node * bool -> option N -> V) usable
+         (history : list (anti_input * N)),
+    run_memo_store keqb usable (len_store anti_deps u) (fun x => kinj (anti_key (fst x))) (len_f anti_deps u g) history
+    = map (len_f anti_deps u g) history.
+Proof.
+  intros K V keqb Hk kinj Hinj.
+  exact (len_store_transparent keqb Hk (fun x => kinj (anti_key x)) anti_deps
+           (fun x y E => anti_cache_sufficient x y (Hinj _ _ E))).
+Qed.
+
 Theorem inv_fix_sufficient : forall (V : Type) (g : list node * (N * bool) -> V),
   sufficient inv_key_fix (fun x => g (inv_deps x)).
 Proof. intros V g x y E. unfold inv_key_fix, inv_deps in *. rewrite E. reflexivity. Qed.
